@@ -7,6 +7,7 @@ package c08
 import (
 	"context"
 	"fmt"
+	"sort"
 	"time"
 
 	"github.com/Comcast/sheens/core"
@@ -136,8 +137,8 @@ func idsOf(xs []interface{}) []string {
 }
 
 func Run(cfg fw.Config, rec *fw.Rec) {
-	rec.Rule = "three-node action chains start->n1->n2->done; each action is 'emit k unique ids, mutate, fail by f [, emit again]' for k in 0..4 and f in {none, throw, infinite loop under a deadline, return number/string/array/function/NaN/bool, _.out(unserialisable), _.out(NaN)}; branches optionally guarded by guards that emit and then accept / reject / fail; 3 error settings; observed through Stride.Emitted, Walked.DoEmitted and sio.Crew Result.Emitted; the observed id sequence must equal the ids of the reference's successfully completed actions in execution order; non-trivial = chain in which some action emitted and some action or guard failed or rejected; distinct by chain description"
-	rec.Required = []string{"walk_checked", "crew_checked", "failure_after_emit", "failure_timeout", "failure_bad_return", "failure_out_unserialisable", "guard_emitted_nothing", "position_first", "position_middle", "position_last"}
+	rec.Rule = "three-node action chains start->n1->n2->done; each action is 'emit k unique ids, mutate, fail by f [, emit again]' for k in 0..4 and f in {none, throw, infinite loop under a deadline, return number/string/array/function/NaN/bool, _.out(unserialisable), _.out(NaN)}; branches optionally guarded by guards that emit and then accept / reject / fail; 3 error settings; observed through Stride.Emitted, Walked.DoEmitted and sio.Crew Result.Emitted (one machine, and two machines with different emissions processing one message: one batch per machine); the observed id sequence must equal the ids of the reference's successfully completed actions in execution order; non-trivial = chain in which some action emitted and some action or guard failed or rejected; distinct by chain description"
+	rec.Required = []string{"walk_checked", "crew_checked", "crew_two_machines_checked", "failure_after_emit", "failure_timeout", "failure_bad_return", "failure_out_unserialisable", "guard_emitted_nothing", "position_first", "position_middle", "position_last"}
 	rec.Assume = []string{"a timed-out action is the last one executed in its walk (later actions under an expired context may legitimately either run or time out)"}
 	type job struct {
 		ks      []int
@@ -213,6 +214,8 @@ func Run(cfg fw.Config, rec *fw.Rec) {
 			defer cancel()
 		}
 		var got []string
+		twoMachines := false
+		var wantBatches []string
 		if viaCrew {
 			if hasLoop {
 				return
@@ -231,15 +234,38 @@ func Run(cfg fw.Config, rec *fw.Rec) {
 				rec.Inconclusive("SetMachine: " + err.Error())
 				return
 			}
+			// a second machine whose emissions differ: the crew reports one batch per machine
+			var want2 []string
+			if i%2 == 0 {
+				u2 := &gen.Uid{Prefix: fmt.Sprintf("d%d_", i)}
+				cc2 := chain(u2, []int{2, 1, 3}, []string{"none", j.fs[1], "none"}, []bool{false, false, false}, []string{"none", "none", "none"}, j.setting, to)
+				want2, _ = refWalk(cc2.Spec, ref.AState{Node: "start", Bs: map[string]interface{}{}}, nil, 20)
+				src2, err := siox.Inline(cc2.Spec.JSON(false))
+				if err == nil {
+					err = c.SetMachine(ctx, "m2", src2, nil)
+				}
+				if err != nil {
+					rec.Inconclusive("second machine: " + err.Error())
+					return
+				}
+				twoMachines = true
+				wantBatches = []string{fw.Canon(want), fw.Canon(want2)}
+			}
 			var res interface{}
+			submit := map[string]interface{}{"to": "m", "go": true}
+			if twoMachines {
+				submit = map[string]interface{}{"to": []interface{}{"m", "m2"}, "go": true}
+			}
+			var gotBatches []string
 			if rec.Guard("C08:crew", cc, func() {
-				r, err := c.ProcessMsg(ctx, map[string]interface{}{"to": "m", "go": true})
+				r, err := c.ProcessMsg(ctx, submit)
 				if err != nil {
 					rec.Inconclusive("ProcessMsg: " + err.Error())
 					return
 				}
 				for _, batch := range r.Emitted {
 					got = append(got, idsOf(batch)...)
+					gotBatches = append(gotBatches, fw.Canon(idsOf(batch)))
 				}
 				res = r
 			}) {
@@ -248,6 +274,24 @@ func Run(cfg fw.Config, rec *fw.Rec) {
 			_ = res
 			rec.Eval(1)
 			rec.Bucket("crew_checked")
+			if twoMachines {
+				// each machine's emissions form their own batch; machine order is unspecified
+				var wb []string
+				for _, b := range wantBatches {
+					if b != "null" && b != "[]" {
+						wb = append(wb, b)
+					}
+				}
+				sort.Strings(wb)
+				sort.Strings(gotBatches)
+				if fw.Canon(wb) != fw.Canon(gotBatches) && !(len(wb) == 0 && len(gotBatches) == 0) {
+					rec.Violation("C08:crew-batches-differ", fmt.Sprintf("two machines processed one message: the crew reports the batches %v, the machines' completed actions emitted %v", gotBatches, wb), cc)
+					return
+				}
+				rec.Bucket("crew_two_machines_checked")
+				rec.Nontrivial(fw.Canon(cc.Descr) + fmt.Sprint("two", j.setting))
+				return
+			}
 		} else {
 			spec, err := cc.Spec.Compiled(false, ref.NativeNilErr)
 			if err != nil {
